@@ -8,6 +8,7 @@
     every capacity) is validated by the correspondence runs with restarts over the
     db-backed engine, not proved here (C09, C10, C12 prove the layers separately). *)
 From QV Require Import Common.Prelude Engine.Model Engine.Core Engine.CoreSpec Engine.CoreInvState Engine.CoreRestart Engine.CoreSound Engine.RestartLemmas.
+From QV Require Import Engine.MdlSpec Engine.MdlSound.
 
 Theorem C07_core_restart_persisted : forall s,
   cs_nodes (crestart s) = cs_nodes s /\ cs_bwd (crestart s) = cs_bwd s /\
@@ -44,6 +45,21 @@ Theorem C07_model_restart_persisted : forall s,
   s_ts (restart s) = s_ts s /\ s_ext (restart s) = s_ext s /\ s_world (restart s) = s_world s.
 Proof. exact restart_persisted. Qed.
 
+(** full model with firewalls and projections: restarts anywhere in the history
+    ([op_in_scope ORestart = True]); the general soundness theorem read with ORestart among the
+    operations, and ORestart is exactly [restart] *)
+Theorem C07_model_sound_across_restarts :
+  forall p ops i n r z, wf_model p -> Forall op_in_scope ops ->
+    model_sessions_fuelled p ops i ->
+    nth_error ops i = Some (OQuery n) ->
+    nth_error (run_history p init_state ops) i = Some r ->
+    r_out r = RValue z ->
+    MdlSpec p (inputs_after (firstn i ops)) n z.
+Proof. exact MdlSound.model_sound. Qed.
+Theorem C07_model_restart_is_an_operation : forall p s,
+  op_in_scope ORestart /\ step p s ORestart = (restart (set_log s []), mkRes RUnit [] None).
+Proof. intros p s. split; [exact I | reflexivity]. Qed.
+
 Check ex_restart.
 
 Print Assumptions C07_core_restart_persisted.
@@ -52,3 +68,5 @@ Print Assumptions C07_core_sound_across_restarts.
 Print Assumptions C07_core_restart_is_an_operation.
 Print Assumptions C07_core_no_reexecution.
 Print Assumptions C07_model_restart_persisted.
+Print Assumptions C07_model_sound_across_restarts.
+Print Assumptions C07_model_restart_is_an_operation.
